@@ -24,6 +24,7 @@ func repoDir() string {
 	}
 	return "/repo"
 }
+
 const ContractsFileName = "verif_contracts.go"
 const GenFileName = "zz_dsvc_gen.go"
 
